@@ -36,9 +36,11 @@ Attributes:
 
 """
 
+from _string import formatter_field_name_split
 from collections import deque
 from enum import Enum
 from io import StringIO
+from string import Formatter
 from typing import Any, Callable, Collection, Dict, Generic, IO, Iterable, Iterator, List, Optional, Set, \
     SupportsFloat, SupportsInt, Tuple, Type, TypeVar, Union
 import itertools
@@ -64,6 +66,29 @@ class ParseError(RuntimeError):
 
     def __str__(self):
         return f"{super().__str__()} at offset {self.offset}"
+
+
+class SafeFormatter(Formatter):
+    """A string formatter that refuses to traverse protected and private attributes in replacement fields.
+
+    :meth:`str.format` resolves field names like ``{0._secret}`` with :func:`getattr`, which would bypass the
+    check in :func:`get_member`.
+
+    """
+    def get_field(self, field_name, args, kwargs):
+        first, rest = formatter_field_name_split(field_name)
+        obj = self.get_value(first, args, kwargs)
+        for is_attr, i in rest:
+            if is_attr:
+                if i.startswith('_'):
+                    raise ParseError(f"Cannot read protected and private member variables: {field_name}", 0)
+                obj = getattr(obj, i)
+            else:
+                obj = obj[i]
+        return obj, first
+
+
+SAFE_FORMATTER = SafeFormatter()
 
 
 def get_member(obj, member: 'IdentifierToken'):
@@ -97,6 +122,15 @@ def get_member(obj, member: 'IdentifierToken'):
         raise ParseError(f"member name expected, instead found {member}", member.offset)
     if member.name.startswith('_'):
         raise ParseError(f"Cannot read protected and private member variables: {obj}.{member.name}", member.offset)
+    if member.name in ('format', 'format_map') and (isinstance(obj, str) or obj is str):
+        # str.format would happily read private attributes of its arguments
+        if obj is str:
+            if member.name == 'format':
+                return lambda format_string, *args, **kwargs: SAFE_FORMATTER.vformat(format_string, args, kwargs)
+            return lambda format_string, mapping: SAFE_FORMATTER.vformat(format_string, (), mapping)
+        elif member.name == 'format':
+            return lambda *args, **kwargs: SAFE_FORMATTER.vformat(obj, args, kwargs)
+        return lambda mapping: SAFE_FORMATTER.vformat(obj, (), mapping)
     return getattr(obj, member.name)
 
 
